@@ -28,18 +28,18 @@ type knownEntry struct {
 }
 
 type coverage struct {
-	Evaluations        int      `json:"evaluations"`
-	DistinctNontrivial int      `json:"distinct_nontrivial"`
-	Rule               string   `json:"rule"`
-	Samples            []any    `json:"samples"`
-	Obligations        int      `json:"obligations"`
-	Discharged         int      `json:"discharged"`
-	CheckerCmd         string   `json:"checker_cmd"`
-	TrustedBase        []string `json:"trusted_base"`
-	Programs           int      `json:"programs"`
-	Disagreements      int      `json:"disagreements_checked"`
-	Explanation        string   `json:"explanation"`
-	Exhaustive         bool     `json:"exhaustive"`
+	Evaluations        int            `json:"evaluations"`
+	DistinctNontrivial int            `json:"distinct_nontrivial"`
+	Rule               string         `json:"rule"`
+	Samples            []any          `json:"samples"`
+	Obligations        int            `json:"obligations"`
+	Discharged         int            `json:"discharged"`
+	CheckerCmd         string         `json:"checker_cmd"`
+	TrustedBase        []string       `json:"trusted_base"`
+	Programs           int            `json:"programs"`
+	Disagreements      int            `json:"disagreements_checked"`
+	Explanation        string         `json:"explanation"`
+	Exhaustive         bool           `json:"exhaustive"`
 	Extra              map[string]any `json:"extra,omitempty"`
 }
 
@@ -107,7 +107,7 @@ func (c *checkCtx) finish() int {
 	known := loadKnown()
 	violations := 0
 	seen := map[string]bool{}
-	os.MkdirAll(filepath.Join(verifDir, "replays"), 0o755)
+	os.MkdirAll(filepath.Join(outDir(), "replays"), 0o755)
 	for _, f := range c.findings {
 		if seen[f.Signature] {
 			continue
@@ -124,7 +124,7 @@ func (c *checkCtx) finish() int {
 			continue
 		}
 		violations++
-		path := filepath.Join(verifDir, "replays", fmt.Sprintf("%s-%s.json", c.id, hashOf(f.Signature)))
+		path := filepath.Join(outDir(), "replays", fmt.Sprintf("%s-%s.json", c.id, hashOf(f.Signature)))
 		data, _ := json.MarshalIndent(map[string]any{
 			"property": c.id, "signature": f.Signature, "description": f.Desc,
 			"replay": f.Replay, "no_failing_input_found": f.NoInput,
@@ -149,9 +149,9 @@ func (c *checkCtx) finish() int {
 		PropertyID: c.id, Tier: c.tier, Seed: c.seed, Level: c.level, Coverage: c.cov,
 		Assumptions: c.assume, WallS: time.Since(c.start).Seconds(), Violations: violations,
 	}
-	os.MkdirAll(filepath.Join(verifDir, "evidence"), 0o755)
+	os.MkdirAll(filepath.Join(outDir(), "evidence"), 0o755)
 	data, _ := json.MarshalIndent(ev, "", " ")
-	os.WriteFile(filepath.Join(verifDir, "evidence", c.id+".json"), data, 0o644)
+	os.WriteFile(filepath.Join(outDir(), "evidence", c.id+".json"), data, 0o644)
 	if violations > 0 {
 		return 1
 	}
@@ -233,4 +233,14 @@ func lastLines(s string, n int) string {
 		ls = ls[len(ls)-n:]
 	}
 	return strings.Join(ls, " | ")
+}
+
+// outDir: evidence and replays go to /verif itself for the tree under test, and to a scratch directory when the
+// checks are tried on a worktree carrying a seeded change (VERIF_REPO), so that committed evidence only ever
+// comes from /repo.
+func outDir() string {
+	if repoDir == "/repo" {
+		return verifDir
+	}
+	return filepath.Join(binDir, "out")
 }
